@@ -7,7 +7,7 @@ const (
 
 // H_C12: services and routes can change while requests are being served.
 // op: 0 Add(ws), 1 Remove(ws), 2 Route on a dynamic service, 3 RemoveRoute; router: 0 Curly, 1 JSR311; entry: 0 Dispatch, 1 ServeHTTP
-// target: 0 the request goes to the service being changed, 1 to another one
+// target: 0 the request goes to the service being changed, 1 to another one, 2 OPTIONS request through the OPTIONS filter
 func H_C12(op, router, entry, target int) {
 	c := NewContainer()
 	c.Router(vRouter(router))
@@ -25,11 +25,17 @@ func H_C12(op, router, entry, target int) {
 	c.Add(b)
 	extra := mk("/c")
 	path := "/a/r"
+	method := "GET"
 	if target == 1 {
 		path = "/b/r"
 	}
+	if target == 2 {
+		// an OPTIONS request answered by the OPTIONS filter, which walks the registrations itself
+		c.Filter(c.OPTIONSFilter)
+		method = "OPTIONS"
+	}
 	rec := vNewRec()
-	req := vReq{method: "GET", path: path}.http()
+	req := vReq{method: method, path: path}.http()
 	verifSpawn(func() {
 		if entry == 0 {
 			c.Dispatch(rec, req)
